@@ -6,5 +6,20 @@ PROP = "C14"
 THEOREMS = ["C14_limits_every_reachable_state", "C14_connection_limit", "C14_open_beyond_limit_refused", "C14_closed_connection_slot_released", "C14_hangup_slot_released", "C14_subscription_limit", "C14_subscription_zero_example", "C14_channel_capacity_at_admission", "C14_payload_limit", "C14_payload_limit_server_cap", "C14_acl_entry_limit", "C14_inflight_zero", "C14_capacity_not_invariant_after_config_change", "C14_channel_limit", "C14_channel_created_only_with_room", "C14_channel_slot_released", "C14_channel_limit_example", "C14_source_limits_wiring"]
 
 
+def boot_stage(thorough, violations, stats):
+    """the configured limits are the enforced ones when the server is started through its real entry point"""
+    import bootlib
+    from common import Rng, seed
+    rr = Rng(seed() + 31)
+    for _ in range(4 if thorough else 1):
+        v, st = bootlib.probe(rr)
+        for k, x in st.items():
+            stats[k] = stats.get(k, 0) + x
+        for what, lim in v:
+            if "SIGTERM" in what or "did not stop" in what:
+                continue      # shutdown behaviour is C20's business
+            violations.append((PROP, "server started through narwhal_server::run: " + what, {"boot_limits": lim}, 0))
+
+
 def run(tier, replay=None):
-    return srvprops.run(PROP, THEOREMS, tier, replay, extra_gen=lambda r, th: sl.kick_histories(r, th) + sl.slot_histories(r, th) + sl.inflight_histories(r, th), rule_note=' plus connections ending through the write-error path max_connections times followed by new connections, and requests timing out in a silent modulator max_inflight_requests times followed by a full pipelined window;' + ' plus directed removal histories: an owner removes a member with LEAVE on_behalf, then drops / fills its own limit / the removed member re-joins up to its limit / a namesake reconnects and probes ownership; ends with the CHANNELS-vs-MEMBERS audit (members must be alive)')
+    return srvprops.run(PROP, THEOREMS, tier, replay, extra_stage=boot_stage, extra_gen=lambda r, th: sl.kick_histories(r, th) + sl.slot_histories(r, th) + sl.inflight_histories(r, th), rule_note=' plus connections ending through the write-error path max_connections times followed by new connections, and requests timing out in a silent modulator max_inflight_requests times followed by a full pipelined window;' + ' plus directed removal histories: an owner removes a member with LEAVE on_behalf, then drops / fills its own limit / the removed member re-joins up to its limit / a namesake reconnects and probes ownership; ends with the CHANNELS-vs-MEMBERS audit (members must be alive)')
